@@ -22,7 +22,7 @@ from harness import buildlib as B
 from harness import c08
 from harness.common import Run, coq_list, parse_coq_string
 
-CONE = ["Base.v", "IR.v", "Show.v", "Build.v", "Sem.v", "Plan.v", "Named.v", "Validate.v", "BuildFacts.v", "Adapt.v", "AdaptFacts.v", "CompilePres.v", "ScopeFacts.v", "DfsFacts.v", "EmitFacts.v", "IOFacts.v", "ReqFacts.v", "CoverFacts.v"]
+CONE = ["Base.v", "IR.v", "Show.v", "Build.v", "Sem.v", "Plan.v", "Named.v", "Validate.v", "BuildFacts.v", "Adapt.v", "AdaptFacts.v", "PolicyFacts.v", "CompilePres.v", "ScopeFacts.v", "DfsFacts.v", "EmitFacts.v", "IOFacts.v", "ReqFacts.v", "CoverFacts.v"]
 PROPS = "props/C09.v"
 F32 = np.float32
 MODS = {v: importlib.import_module(f"spox.opset.ai.onnx.v{v}") for v in (17, 18, 19, 20, 21)}
